@@ -2,7 +2,10 @@ package pongo2
 
 // C20: template cache - one compile per name, coherent under concurrency.
 
-import "sync"
+import (
+	"sync"
+	"time"
+)
 
 // loader with mutable content and a fetch counter per name
 type c20Loader struct {
@@ -12,10 +15,14 @@ type c20Loader struct {
 	broken  map[string]bool // names whose reader fails after a leading part of the content
 	outside int // fetches that happened while the engine saw no mutex held
 	nlock   int // own Lock calls (subtracted from the engine's lock-event count)
+	slow    bool // native concurrent demonstration only: every fetch takes a moment, so that overlapping loads overlap for sure
 }
 
 func (l *c20Loader) Abs(base, name string) string { return name }
 func (l *c20Loader) Get(path string) (ioReader, error) {
+	if l.slow {
+		time.Sleep(2 * time.Millisecond)
+	}
 	if h := verifLocksHeld(); h == 0 {
 		l.outside++ // fetched while no mutex was held (engine only; natively verifLocksHeld() is -1)
 	}
@@ -183,6 +190,7 @@ func HarnessC20Locking() {
 	race := verifParam("race", 0) == 1
 	if race {
 		// native demonstration for monitor findings (go build -race): many goroutines ask at once
+		l.slow = true
 		var wg sync.WaitGroup
 		res := make([]*Template, 8)
 		for g := 0; g < 8; g++ {
